@@ -49,12 +49,19 @@ Fixpoint ids_eqb (a b : list N) : bool :=
 Definition res_eqb (a b : option (list N)) : bool :=
   match a, b with Some x, Some y => ids_eqb x y | None, None => true | _, _ => false end.
 
+(* the message store hands out the entries of the range that OPEN (an entry whose sender's chain key
+   the reader does not hold is logged and skipped): the listing of the range minus those *)
+Definition list_open_events (es : list entry) (since until : option N) (reverse : bool) (unopenable : list N) : option (list N) :=
+  option_map (filter (fun i => negb (existsb (N.eqb i) unopenable))) (list_events es since until reverse).
+
 Inductive case :=
+| CListSkip (es : list entry) (since until : option N) (reverse : bool) (unopenable : list N) (observed : option (list N))
 | CList (es : list entry) (since until : option N) (reverse : bool) (observed : option (list N))
 | CParams (since_id since_now until_id until_now reverse : bool) (accepted : bool).
 
 Definition case_ok (c : case) : bool :=
   match c with
+  | CListSkip es s u r skip obs => res_eqb (list_open_events es s u r skip) obs
   | CList es s u r obs => res_eqb (list_events es s u r) obs
   | CParams a b c d e acc => Bool.eqb (check_params a b c d e) acc
   end.
